@@ -38,8 +38,16 @@ SIG_FIRST_DUP = 'C07:fs-pack-copier-backpointer-to-first-duplicate'
 EPOCH = 1577836800        # 2020-01-01 00:00:00 UTC; model time m <-> EPOCH + 15*m seconds
 STEP = 15                 # multiples of 15 s are exactly representable in a TimeStamp
 ROOT = 0
-MAPLIKE = ('map', 'demo')             # MappingStorage, DemoStorage() over a temporary MappingStorage
-FSLIKE = ('fs', 'demofs')             # FileStorage, DemoStorage(changes=FileStorage)
+# MappingStorage, DemoStorage() over a temporary MappingStorage, MVCCMappingStorage (main instance +
+# a second view), HexStorage(MappingStorage)
+MAPLIKE = ('map', 'demo', 'mvccmap', 'hexmap')
+# FileStorage, DemoStorage(base=empty, changes=FileStorage), HexStorage(FileStorage) (records are
+# transformed: pack must untransform before extracting references),
+# DemoStorage(base=MappingStorage holding the first half of the history, changes=FileStorage)
+FSLIKE = ('fs', 'demofs', 'hexfs', 'demobase')
+DEMOFS = ('demofs', 'demobase')       # pack delegates to changes.pack(gc=False); gc=True is refused
+HEXED = ('hexfs', 'hexmap')
+BIG_OIDS = [65536, 65537 + 255, 3 * 65536, 2 ** 32 + 1, 2 ** 48 + 0xff00, 2 ** 63 + 5, 2 ** 64 - 1, 0x0100ff00]
 
 
 # ------------------------------------------------------------------------------------------ time
@@ -92,9 +100,11 @@ def model_time(tid):
 
 
 # ------------------------------------------------------------------------------------------ pickles
-def mkpickle(val, refs, weak=()):
+def mkpickle(val, refs, weak=(), pad=0):
     """class-meta pickle + state pickle, persistent references in the two strong formats
-    (bare oid, (oid, class)) and the weak format ['w', (oid,)] that referencesf must ignore"""
+    (bare oid, (oid, class)) and the list formats referencesf must ignore: weak ['w', (oid,)],
+    weak / strong references into another database ['w', (oid, db)], ['n', (db, oid)],
+    ['m', (db, oid, class)]; `pad` bytes of ballast (records above 64 KiB)"""
     f = io.BytesIO()
     p = pickle.Pickler(f, 3)
 
@@ -102,13 +112,18 @@ def mkpickle(val, refs, weak=()):
         if isinstance(o, tuple) and o and o[0] == 'REF':
             return Z['p64'](o[1]) if o[2] == 0 else (Z['p64'](o[1]), None)
         if isinstance(o, tuple) and o and o[0] == 'WEAK':
-            return ['w', (Z['p64'](o[1]),)]
+            oid = Z['p64'](o[1])
+            return [['w', (oid,)], ['w', (oid, 'other')], ['n', ('other', oid)],
+                    ['m', ('other', oid, None)]][o[2] % 4]
         return None
     p.persistent_id = pid
     p.dump((('ZODB.tests.MinPO', 'MinPO'), None))
-    p.dump({'value': val,
-            'refs': [('REF', r, (val + i) % 2) for i, r in enumerate(refs)],
-            'weak': [('WEAK', r) for r in weak]})
+    state = {'value': val,
+             'refs': [('REF', r, (val + i) % 2) for i, r in enumerate(refs)],
+             'weak': [('WEAK', r, val + i) for i, r in enumerate(weak)]}
+    if pad:
+        state['pad'] = b'x' * pad
+    p.dump(state)
     return f.getvalue()
 
 
@@ -198,9 +213,37 @@ def gen_history(rng, ntx):
             x = rng.random()
             cand = allm[-1:] if x < 0.45 else (allm[-3:] if x < 0.8 else allm)
             ops.append(dict(m=m, op='undo', target=rng.choice(cand)))
-        else:
+        elif r < 0.94:
             ops.append(dict(m=m, op='delete', oids=sorted({rng.choice(pool) for _ in range(rng.choice([1, 1, 2]))})))
+        elif r < 0.97:
+            # restore(): what copyTransactionsFrom / recovery use — data with a prev_txn hint (becomes a
+            # back pointer when that transaction holds the same data), plain data, or an un-creation
+            recs = []
+            for o in sorted({rng.choice(pool) for _ in range(rng.choice([1, 2]))}):
+                recs.append([o, rng.choice(['copy', 'copy', 'new', 'del']), rng.choice(allm)])
+            ops.append(dict(m=m, op='restore', recs=recs))
+        else:
+            ops.append(dict(m=m, op='empty'))            # a transaction without records
         allm.append(m)
+    # boundary values: a record above 64 KiB, long / non-empty metadata
+    st_ops = [op for op in ops if op['op'] == 'store']
+    if st_ops and rng.random() < 0.06:
+        rng.choice(rng.choice(st_ops)['recs']).append(rng.choice([65536, 70001, 140000]))
+    if rng.random() < 0.1:
+        rng.choice(ops)['ext'] = {'k': rng.randrange(1000), 'why': 'x' * rng.choice([1, 300])}
+    if rng.random() < 0.05:
+        rng.choice(ops)['desc_len'] = rng.choice([65535, 65534, 4000])
+    # oids >= 2^16 (several index buckets), with 0x00 / 0xff bytes, high bit set, 2^64-1
+    if rng.random() < 0.25:
+        omap = dict(zip(rng.sample(pool + [6, 7, 8], rng.choice([1, 2, 4])), rng.sample(BIG_OIDS, 4)))
+        f = lambda o: omap.get(o, o)
+        for op in ops:
+            if op['op'] == 'store':
+                op['recs'] = [[f(r[0]), [f(x) for x in r[1]], [f(x) for x in r[2]]] + r[3:] for r in op['recs']]
+            elif op['op'] == 'delete':
+                op['oids'] = [f(o) for o in op['oids']]
+            elif op['op'] == 'restore':
+                op['recs'] = [[f(o), mode, m0] for o, mode, m0 in op['recs']]
     return ops
 
 
@@ -228,7 +271,38 @@ class Truth(dict):
     """data bytes -> the generator's reference list (ground truth of the oracle)"""
 
 
-def open_storage(kind, path, cfg=None):
+def all_oids(ops):
+    return sorted({ROOT} | {r[0] for op in ops if op['op'] in ('store', 'restore') for r in op['recs']}
+                  | {x for op in ops if op['op'] == 'store' for r in op['recs'] for x in r[1]}
+                  | {o for op in ops if op['op'] == 'delete' for o in op['oids']})
+
+
+def fs_of(st, kind):
+    """the FileStorage / MappingStorage that is actually packed (whose own history the model gets)"""
+    if kind in DEMOFS:
+        return st.changes
+    if kind in HEXED:
+        return st.base
+    return st
+
+
+def open_storage(kind, path, cfg=None, base=None):
+    if kind == 'fs' and cfg and cfg.get('ctor'):
+        # direct constructor with explicit non-default option values
+        return Z['FS'](path, pack_gc=bool(cfg['pack_gc']), pack_keep_old=bool(cfg['keep_old']), create=False) \
+            if os.path.exists(path) else Z['FS'](path, pack_gc=bool(cfg['pack_gc']),
+                                                 pack_keep_old=bool(cfg['keep_old']))
+    if kind == 'hexfs':
+        from ZODB.tests.hexstorage import HexStorage
+        return HexStorage(Z['FS'](path))
+    if kind == 'hexmap':
+        from ZODB.tests.hexstorage import HexStorage
+        return HexStorage(Z['MS']())
+    if kind == 'mvccmap':
+        from ZODB.tests.MVCCMappingStorage import MVCCMappingStorage
+        return MVCCMappingStorage()
+    if kind == 'demobase':
+        return Z['DS'](base=base, changes=Z['FS'](path), close_base_on_close=False)
     if kind == 'fs' and cfg:
         # the storage as a deployment creates it: ZODB.config / ZConfig <filestorage> section with
         # explicit pack-gc / pack-keep-old (pack is then called without a gc argument)
@@ -251,19 +325,40 @@ def apply_ops(st, kind, ops, truth, serial=None):
     serial = {} if serial is None else serial
     done = []
     for op in ops:
-        if kind in MAPLIKE and op['op'] != 'store':
+        if kind in MAPLIKE and op['op'] not in ('store', 'empty'):
             continue
         tid = real_tid(op['m'])
-        t = Z['TMD']('u%d' % (op['m'] % 3), 'txn %d' % op['m'])
+        desc = 'txn %d' % op['m']
+        if op.get('desc_len'):
+            desc = desc.ljust(op['desc_len'], '.')
+        t = Z['TMD']('u%d' % (op['m'] % 3), desc, op.get('ext'))
         st.tpc_begin(t, tid=tid)
         written = []
+        datalog = truth.__dict__.setdefault('datalog', {})
         try:
             if op['op'] == 'store':
-                for j, (o, refs, weak) in enumerate(op['recs']):
+                for j, rec in enumerate(op['recs']):
+                    o, refs, weak = rec[0], rec[1], rec[2]
                     dupidx = sum(1 for x in op['recs'][:j] if x[0] == o)
-                    data = mkpickle(op['m'] * 100 + o + 10 * dupidx, refs, weak)
+                    data = mkpickle(op['m'] * 100 + (o % 89) + 10 * dupidx, refs, weak,
+                                    rec[3] if len(rec) > 3 else 0)
                     truth[data] = list(refs)
+                    datalog[(o, op['m'])] = data
                     st.store(Z['p64'](o), serial.get(o, Z['z64']), data, '', t)
+                    written.append(o)
+            elif op['op'] == 'empty':
+                pass
+            elif op['op'] == 'restore':
+                for o, mode, m0 in op['recs']:
+                    data, prev = None, None
+                    if mode == 'copy' and (o, m0) in datalog:
+                        data, prev = datalog[(o, m0)], real_tid(m0)
+                    elif mode != 'del':
+                        data = mkpickle(op['m'] * 100 + (o % 89) + 50, [], [])
+                        truth[data] = []
+                    if data is not None:
+                        datalog[(o, op['m'])] = data
+                    st.restore(Z['p64'](o), tid, data, '', prev, t)
                     written.append(o)
             elif op['op'] == 'undo':
                 for tg in (op.get('targets') or [op['target']]):
@@ -276,7 +371,7 @@ def apply_ops(st, kind, ops, truth, serial=None):
                     written.append(o)
             st.tpc_vote(t)
             st.tpc_finish(t)
-        except (POS.POSError, KeyError, AssertionError) as e:
+        except (POS.POSError, KeyError, AssertionError, AttributeError) as e:
             st.tpc_abort(t)
             done.append((op['m'], type(e).__name__))
             continue
@@ -295,7 +390,8 @@ def listing(st):
             recs.append((Z['u64'](r.oid), r.data, model_time(r.data_txn)))
         ext = t.extension if isinstance(t.extension, dict) else {}
         out.append(dict(m=model_time(t.tid), status=t.status, user=t.user, desc=t.description,
-                        ext=repr(sorted(ext.items())), recs=recs))
+                        ext=repr(sorted(ext.items())), recs=recs,
+                        elen=len(getattr(t, 'extension_bytes', b'') or b'')))
     if hasattr(it, 'close'):
         it.close()
     return out
@@ -306,10 +402,22 @@ def errkind(e):
     return {'POSKeyError': 'K', 'KeyError': 'K'}.get(n, 'EXC:' + n)
 
 
-def observe(st, oids, bounds):
-    obs = dict(listing=listing(st), loads={}, cur={}, ser={})
+def observe(st, oids, bounds, view=None):
+    """every query the property talks about: iterator, loadBefore at every bound, load (through
+    `view`, a second MVCC instance, when given), loadSerial of every listed revision, history, undoLog"""
+    obs = dict(listing=listing(st), loads={}, cur={}, ser={}, hist={}, undolog=None)
+    try:
+        log = st.undoLog(0, 100000) if hasattr(st, 'undoLog') and st.supportsUndo() else None
+        obs['undolog'] = log if log is None else [
+            (model_time(base64.decodebytes(d['id'] + b'\n')), d['description']) for d in log]
+    except Exception as e:
+        obs['undolog'] = errkind(e)
     for o in oids:
         po = Z['p64'](o)
+        try:
+            obs['hist'][o] = [(model_time(d['tid']), d['size']) for d in st.history(po, 100000)]
+        except Exception as e:
+            obs['hist'][o] = errkind(e)
         for b in bounds:
             try:
                 r = st.loadBefore(po, real_tid(b))
@@ -318,7 +426,7 @@ def observe(st, oids, bounds):
                 r = errkind(e)
             obs['loads'][(o, b)] = r
         try:
-            r = st.load(po, '')
+            r = (view or st).load(po, '')
             r = (r[0], model_time(r[1]))
         except Exception as e:
             r = errkind(e)
@@ -586,15 +694,16 @@ def judge_repack(before, after, T, prevT, gc, kind, outcome):
 
 
 # ------------------------------------------------------------------------------------------ one case
-def model_lines_history(lst):
+def model_lines_history(lst, hexed=False):
     lines = ['reset']
     for t in lst:
-        mlen = len(t['user']) + len(t['desc'])
+        mlen = len(t['user']) + len(t['desc']) + t.get('elen', 0)
         lines.append('txn %d %d %d %s' % (t['m'], 1 if t['status'] == 'p' else 0, mlen,
                                           dig(t['user'] + b'|' + t['desc'], 2)))
         for o, d, back in t['recs']:
             refs = [Z['u64'](x) for x in Z['referencesf'](d)] if d else []
-            lines.append('rec %d %s %d %s %s' % (o, dig(d) if d is not None else '-', len(d) if d else 0,
+            dlen = (len(d) if not hexed else 2 + 2 * len(d)) if d else 0     # HexStorage: b'.h' + hex
+            lines.append('rec %d %s %d %s %s' % (o, dig(d) if d is not None else '-', dlen,
                                                  '-' if back is None else str(back),
                                                  ','.join(map(str, refs)) or '-'))
     lines += ['wf', 'save']
@@ -648,8 +757,7 @@ def run_case(case, tmp, want_model=True):
         res['log'] = done
         ms = [op['m'] for op in ops]
         bounds = sorted(set(ms + [max(ms) + 1])) if ms else [1, 4, 9]
-        oids = sorted({ROOT} | {o for op in ops if op['op'] == 'store' for o, _, _ in op['recs']}
-                      | {x for op in ops if op['op'] == 'store' for _, r, _ in op['recs'] for x in r})
+        oids = all_oids(ops)
         before = observe(st, oids, bounds)
         first = before
         if want_model:
@@ -776,8 +884,7 @@ def run_cc(case, tmp, want_model=False):
         res['log'] = done
         ms = [op['m'] for op in ops]
         bounds = sorted(set(ms + [max(ms) + 1]))
-        oids = sorted({ROOT} | {o for op in ops if op['op'] == 'store' for o, _, _ in op['recs']}
-                      | {x for op in ops if op['op'] == 'store' for _, r, _ in op['recs'] for x in r})
+        oids = all_oids(ops)
         before = observe(st, oids, bounds)
         new_m = max(ms) + 2
         new_op = dict(m=new_m, op='store', recs=[[17, [18], []], [18, [], []]])
